@@ -2,6 +2,7 @@ package mongokit
 
 import (
 	"fmt"
+	"math"
 
 	"go.mongodb.org/mongo-driver/bson"
 
@@ -161,12 +162,12 @@ func projectSlice(ctx Context, doc bsonkit.Doc, _, path string, v interface{}) e
 	var skip, limit int
 	var hasSkip bool
 	switch nn := v.(type) {
-	case int32:
-		limit = int(nn)
-	case int64:
-		limit = int(nn)
-	case float64:
-		limit = int(nn)
+	case int32, int64, float64:
+		l, ok := projectSliceInt(nn)
+		if !ok {
+			return fmt.Errorf("$slice: expected a number")
+		}
+		limit = l
 	case bson.A:
 		if len(nn) != 2 {
 			return fmt.Errorf("$slice: array argument requires 2 elements, got %d", len(nn))
@@ -240,17 +241,29 @@ func projectSlice(ctx Context, doc bsonkit.Doc, _, path string, v interface{}) e
 	return nil
 }
 
+// projectSliceInt converts a $slice argument to an int. Values beyond the
+// int32 range (no array is that long) are clamped so that the window
+// arithmetic cannot overflow, NaN is rejected.
 func projectSliceInt(v interface{}) (int, bool) {
+	var f float64
 	switch n := v.(type) {
 	case int32:
 		return int(n), true
 	case int64:
-		return int(n), true
+		f = float64(n)
 	case float64:
-		return int(n), true
+		f = n
 	default:
 		return 0, false
 	}
+	if f != f {
+		return 0, false
+	} else if f > math.MaxInt32 {
+		return math.MaxInt32, true
+	} else if f < math.MinInt32 {
+		return math.MinInt32, true
+	}
+	return int(f), true
 }
 
 func projectElemMatch(ctx Context, doc bsonkit.Doc, _, path string, v interface{}) error {
